@@ -394,3 +394,24 @@ func (c *Ctx) cgStats() (nodes, edges int) {
 	}
 	return
 }
+
+// FieldOwner: the name of the moss struct type that declares field fv ("" if none).
+func (c *Ctx) FieldOwner(fv *types.Var) string {
+	sc := c.TPkg.Scope()
+	for _, n := range sc.Names() {
+		tn, ok := sc.Lookup(n).(*types.TypeName)
+		if !ok {
+			continue
+		}
+		st, ok := tn.Type().Underlying().(*types.Struct)
+		if !ok {
+			continue
+		}
+		for i := 0; i < st.NumFields(); i++ {
+			if st.Field(i) == fv {
+				return n
+			}
+		}
+	}
+	return ""
+}
